@@ -72,7 +72,7 @@ def make_world(shape):
             self.t = dt.datetime(2020, 1, 1) + dt.timedelta(seconds=ctl["clock"])
 
         def get_modified_time(self):
-            if ctl["fail"] == "mtime":
+            if ctl["fail"] == "mtime" or (ctl["fail"] == "mtimeadded" and self in ctl.get("added", ())):
                 raise Boom("mtime")
             return self.t
 
@@ -151,7 +151,7 @@ def make_world(shape):
 
 SHAPES = ["chain", "diamond-literals", "dependent-source", "stored-literal-unpack", "no-registry-needed"]
 
-OPS = ["run", "run-fail-mtime", "run-fail-call", "run-fail-write", "dry", "render", "render-level", "render-level0", "render-predicate-level2", "render-dry", "run-none-output",
+OPS = ["run", "run-fail-mtime", "run-fail-mtimeadded", "run-fail-call", "run-fail-write", "dry", "render", "render-level", "render-level0", "render-predicate-level2", "render-dry", "run-none-output",
        "transform-physical", "run-no-registry", "copy-mutate", "regcopy-mutate", "run-fresh-time", "run-2-workers-random"]
 
 
@@ -170,10 +170,12 @@ def do_op(w, op):
             u.run(plan, registry=reg, output=out, progress=None, max_workers=1, fresh_time=dt.datetime(2030, 1, 1))
         elif op == "run-none-output":
             u.run(plan, registry=reg, progress=None, max_workers=1)
-        elif op in ("run-fail-mtime", "run-fail-call", "run-fail-write"):
+        elif op in ("run-fail-mtime", "run-fail-mtimeadded", "run-fail-call", "run-fail-write"):
             ctl["fail"] = op.split("-")[-1]
+            # stores registered with registry.add (not registry.source)
+            ctl["added"] = [rv.value_store for rv in reg.mapping.values() if not rv.is_source]
             for s in w["stores"][1:]:
-                if op != "run-fail-mtime":
+                if not op.startswith("run-fail-mtime"):
                     s.v, s.t = None, None  # make something stale so that calls / writes happen
             try:
                 u.run(plan, registry=reg, output=out, progress=None, max_workers=1, max_errors=None)
@@ -450,7 +452,7 @@ def run(tier):
         "operation_sequences": n, "operations": OPS, "plans": SHAPES, "render_available": bool(_can_render()),
         "e1_configs": agg["configs"], "e1_executions": agg["executions"], "e1_schedule_tree_nodes": agg["tree_nodes"],
         "e1_max_points_per_execution": agg["max_points"], "e1_capped": agg["capped"], "e1_budgets": [b for _, b in conc_explorations(tier)],
-        "rule": ("(a) all operation sequences of length <= 2 (thorough: 3) over the 17-operation alphabet on 5 plans (scopes, literals with dependencies, dependent source on a shared store, stored literal + unpack, unneeded nodes); "
+        "rule": ("(a) all operation sequences of length <= 2 (thorough: 3) over the 18-operation alphabet on 5 plans (scopes, literals with dependencies, dependent source on a shared store, stored literal + unpack, unneeded nodes); "
                  "deep identity snapshot (node objects, scope/fn/value/stack_frame identities, edge multiset with keys and data, plan scope, registry entries and their RegistryValue objects) compared after every step, "
                  "final run compared with a pristine twin; (b) two threads run/dry-run/render the same plan+registry: every schedule with <= 1 preemption and <= 1 (thorough 2) non-default choices at blocking points, scheduling points at attribute/subscript accesses of the transformation code"),
         "samples": [{"plan": "chain", "sequence": ["run-fail-write", "dry", "run"]}, {"concurrent": ["run", "run"], "plan": "chain"}],
